@@ -194,7 +194,9 @@ class C16(Prop):
             'recording at every grid instant, every window (start, end) on the grid with explicit end, and for every `now` on '
             'the grid every start with the end defaulting to now; instants at 23:59/00:00/00:01 around midnights with windows '
             'of <1 day crossing midnight, 24 h, 24 h +- 1 min, 48 h; random minute-level buckets of 5-25 recordings in 6 days '
-            'with 8-20 windows (limits, filters, random order); one case = one bucket + its windows; a case is non-trivial '
+            'with 8-20 windows (limits, filters, random order); one case = one bucket + its windows; per case additionally (not '
+            'modelled): its first window with the 1st / 2nd / 3rd / 5th read request (listing step or GET) answered by an error - the '
+            'lookup raises or is exact - and its first two windows consumed interleaved through one cassette; a case is non-trivial '
             'when some window has a non-empty expected set; distinct = distinct canonical case')
     TRUSTED = ['correspondence harness harness/props/c16.py + Lean driver (Drive/S3.lean)',
                'harness/fake_s3.py behind the real S3BasicFacade stands for S3 (lexicographic listing, last_modified stamped '
